@@ -370,7 +370,9 @@ PROPS["C17"] = dict(
 # A property whose statement presupposes another's conclusion also runs that one's obligations: a failure there is a violation here too.
 #   C02 ("the score is the packing fraction, never above 1") presupposes C01 (a scored state has no overlap): W02/2 broke Atom2::intersects.
 #   C15 ("placement k = operation k of the group ...") presupposes that the table holds the group's operations (C16): W15/2 edited the p2gg table.
-DEPENDS = {"C02": ["C01"], "C15": ["C16"]}
+#   C01 ("no two copies overlap") presupposes that the pair predicate is the exact geometric one (C12); C03 ("the score is the crystal's interaction
+#   energy") presupposes the pair potential (C13).  Closed under transitivity below (C02 -> C01 -> C12).
+DEPENDS = {"C02": ["C01", "C12"], "C15": ["C16"], "C01": ["C12"], "C03": ["C13"]}
 for _p, _ds in DEPENDS.items():
     for _d in _ds:
         for _key in ("units", "kani", "lemmas"):
